@@ -175,15 +175,16 @@ instance {V : Type} (P : Partition) (s : GState V) (r : Nat) (rc : Recv) :
 def ctxMid {V : Type} (sem : Sem V) (r : Nat) (p : Part) (st : RState V) : Name → Option V :=
   fun n => if n ∈ p.outputs then some (sem.run r p.pid (restrict st.ctx p.inputs) n) else st.ctx n
 
-/-- rank state after executing part `p` (run, update, release inputs whose count drops to 0) -/
-def execR {V : Type} (sem : Sem V) (r : Nat) (p : Part) (st : RState V) : RState V :=
+/-- rank state after executing part `p` (run, update, release the inputs whose count drops to 0
+    — except names that are overall outputs `ov`, which execute.py never releases) -/
+def execR {V : Type} (sem : Sem V) (r : Nat) (ov : List Name) (p : Part) (st : RState V) : RState V :=
   { executed := p.pid :: st.executed,
     completed := st.completed,
-    ctx := fun n => if n ∈ p.inputs ∧ st.rc n - 1 = 0 then none else ctxMid sem r p st n,
+    ctx := fun n => if n ∈ p.inputs ∧ st.rc n - 1 = 0 ∧ n ∉ ov then none else ctxMid sem r p st n,
     rc := fun n => if n ∈ p.inputs then st.rc n - 1 else st.rc n }
 
-def execG {V : Type} (sem : Sem V) (s : GState V) (r : Nat) (p : Part) : GState V :=
-  { rk := fun r' => if r' = r then execR sem r p (s.rk r) else s.rk r',
+def execG {V : Type} (sem : Sem V) (P : Partition) (s : GState V) (r : Nat) (p : Part) : GState V :=
+  { rk := fun r' => if r' = r then execR sem r (P.overall r) p (s.rk r) else s.rk r',
     sent := fun a b t =>
       if a = r then
         match p.sends.find? (fun sd => decide (sd.dst = b ∧ sd.tag = t)) with
@@ -213,7 +214,7 @@ deriving DecidableEq, Repr
 inductive Step {V : Type} (sem : Sem V) (P : Partition) : GState V → Label → GState V → Prop where
   | exec (s : GState V) (r : Nat) (p : Part) :
       r < P.length → p ∈ P.parts r → p.ready (s.rk r) →
-      Step sem P s (.exec r p.pid) (execG sem s r p)
+      Step sem P s (.exec r p.pid) (execG sem P s r p)
   | deliver (s : GState V) (r : Nat) (S : List Recv) :
       r < P.length → S ≠ [] → (∀ rc ∈ S, pending P s r rc ∧ arrived P s r rc) →
       ¬ anyReady P s r → unfinished P s r →
@@ -297,8 +298,8 @@ abbrev recvNotOutput : Prop := ∀ rc ∈ allRecvs (P.parts r), rc.name ∉ allO
 abbrev recvNotUser : Prop := ∀ rc ∈ allRecvs (P.parts r), rc.name ∉ P.user r
 abbrev recvNamesNodup : Prop := ((allRecvs (P.parts r)).map (·.name)).Nodup
 abbrev outputNotUser : Prop := ∀ n ∈ allOutputs (P.parts r), n ∉ P.user r
-/-- overall outputs are never released: no part reads them (needed by the executor, C08; not
-    one of C09's clauses) -/
+/-- no part reads an overall output name (informative only since execute.py keeps overall
+    outputs in the context; in no contract) -/
 abbrev overallNotRead : Prop := ∀ n ∈ P.overall r, ∀ p ∈ P.parts r, n ∉ p.inputs
 /-- clause 5: no communication nodes inside parts -/
 abbrev partsPure : Prop := ∀ p ∈ P.parts r, p.pure = true
@@ -370,7 +371,7 @@ def WF (P : Partition) : Prop := ∃ lvl round, WFwith P lvl round
 /-- The clauses the *executor* relies on (a subset of `WFRank`): C08's theorems need no more. -/
 def WFexecRank (P : Partition) (lvl : Nat → Nat → Nat) (r : Nat) : Prop :=
   Cl.pidsNodup P r ∧ Cl.needsOk P lvl r ∧ Cl.recvOk P lvl r ∧ Cl.overallProduced P r
-  ∧ Cl.sentAreOutputs P r ∧ Cl.readsOk P r ∧ Cl.overallNotRead P r
+  ∧ Cl.sentAreOutputs P r ∧ Cl.readsOk P r
 
 instance (P : Partition) (lvl : Nat → Nat → Nat) (r : Nat) : Decidable (WFexecRank P lvl r) := by
   unfold WFexecRank; infer_instance
@@ -382,8 +383,8 @@ instance (P : Partition) (lvl : Nat → Nat → Nat) : Decidable (WFexecWith P l
   unfold WFexecWith; exact Nat.decidableBallLT _ _
 
 /-- What the executor needs of a partition: unique part ids; an acyclic part order in which
-    every receive has a sender; overall outputs are produced and never released; sent names are
-    outputs of the sending part; every name read is a user input, received by the same or an
+    every receive has a sender; overall outputs are produced; sent names are outputs of the
+    sending part; every name read is a user input, received by the same or an
     earlier part, or an output of an earlier part. -/
 def WFexec (P : Partition) : Prop := ∃ lvl, WFexecWith P lvl
 
@@ -434,8 +435,7 @@ def checkWFexec (P : Partition) : Bool := decide (WFexecWith P (computeLvl P))
 def nonWFClauses : List String := ["output-not-user", "overall-not-read"]
 
 def execClauses : List String :=
-  ["pids-nodup", "needs-ok", "recv-ok", "overall-produced", "sent-are-outputs", "reads-ok",
-   "overall-not-read"]
+  ["pids-nodup", "needs-ok", "recv-ok", "overall-produced", "sent-are-outputs", "reads-ok"]
 
 /-- failing clauses, as (rank, clause name) -/
 def failingClauses (P : Partition) : List (Nat × String) :=
